@@ -42,10 +42,30 @@ template <class A> void log_one(Weighted& w, A&& a);
 
 struct LeafThrow {};
 
-struct Tr : public sigc::trackable
+// methods inherited from a base class that is NOT a sigc::trackable (the object's own class is)
+struct NB
+{
+  long nb_idx = 0;
+  template <class... A> long nbody(A&&... a);
+  long n0() { return nbody(); }
+  long n1v(Obj a) { return nbody(a); }
+  long n1r(Obj& a) { return nbody(a); }
+  long n1c(const Obj& a) { return nbody(a); }
+  long n2vv(Obj a, Obj b) { return nbody(a, b); }
+  long n2vr(Obj a, Obj& b) { return nbody(a, b); }
+  long n2vc(Obj a, const Obj& b) { return nbody(a, b); }
+  long n2rv(Obj& a, Obj b) { return nbody(a, b); }
+  long n2rr(Obj& a, Obj& b) { return nbody(a, b); }
+  long n2rc(Obj& a, const Obj& b) { return nbody(a, b); }
+  long n2cv(const Obj& a, Obj b) { return nbody(a, b); }
+  long n2cr(const Obj& a, Obj& b) { return nbody(a, b); }
+  long n2cc(const Obj& a, const Obj& b) { return nbody(a, b); }
+};
+
+struct Tr : public NB, public sigc::trackable
 {
   long idx;
-  explicit Tr(long i) : idx(i) {}
+  explicit Tr(long i) : idx(i) { nb_idx = i; }
   // member functions used as mem_fun leaves: one per combination of parameter kinds (<= 2 params)
   template <class... A> long body(A&&... a);
   long m0() { return body(); }
@@ -103,6 +123,7 @@ long log_call(long id, A&&... a)
 }
 
 template <class... A> long Tr::body(A&&... a) { return log_call(500 + idx, std::forward<A>(a)...); }
+template <class... A> long NB::nbody(A&&... a) { return log_call(500 + nb_idx, std::forward<A>(a)...); }
 
 struct Leaf
 {
